@@ -59,7 +59,7 @@ CONSTANTS
   NF = %d
   Modes = {0, 1}
   Full = %s
-INVARIANTS CountMatches RootsMatchNaive ProofsMatchNaive MemberSound SupplementSound HistorySound CarrierSound
+INVARIANTS CountMatches RootsMatchNaive ProofsMatchNaive MemberSound SupplementSound HistorySound CarrierSound KindsDisjoint
 CHECK_DEADLOCK FALSE
 `, maxH, maxAdd, maxLeaves, minInit, maxInit, nfModel, map[bool]string{true: "TRUE", false: "FALSE"}[full])
 }
@@ -206,6 +206,7 @@ func main() {
 	tmpl, K := hostTemplate()
 	postTmpl = chain.NewSim(chain.Params{MatDelay: 1, AllowH: 0, RequireH: 1, EphH: 0, FoundH: 100, Reward: 500,
 		GenSC: []chain.AbsOut{{Val: 600000, Addr: "A"}}, GenSF: []chain.AbsOut{{Val: 10000, Addr: "A"}}}).CS
+	crossKinds(c, st, tmpl, K)
 	ready := make(chan *slice, 1)
 	go func() {
 		for _, s := range slices_ {
@@ -260,6 +261,10 @@ func finish(c *vlib.Ctx, st *stats, traces int64) {
 	c.Cov("base_status", st.bases)
 	c.Cov("max_leaves", st.maxN)
 	c.Cov("v2txn_not_decisive", st.nondec)
+	c.Cov("reinterpret_pairs_checked_at_the_leaf_constructors", st.sepPairs)
+	c.Cov("reinterpret_probes_by_door", st.reDoors)
+	c.Cov("reinterpret_not_applicable_elements", st.reNA)
+	c.Cov("reinterpret_preimage_transcription", map[string]int64{"agrees_with_element_hash": st.preimageOK, "disagrees": st.preimageBad})
 	c.Cov("inblock_prefixes_built", st.ibPrefixes)
 	c.Cov("inblock_states_skipped", st.ibSkipped)
 	c.Cov("inblock_probe_classes", st.ibClasses)
@@ -342,13 +347,28 @@ func finish(c *vlib.Ctx, st *stats, traces int64) {
 	if v := st.verdicts["supp-post-require:expiring-contract"]; v == nil || v[0] == 0 || st.postGenuine == 0 {
 		c.Infra("vacuity: no (genuine) v1 contract presented in a supplement after RequireHeight (%v, genuine %d)", v, st.postGenuine)
 	}
+	// REINTERPRET: every applicable pair of kinds checked at the leaf constructors, the reinterpreted elements
+	// presented through every door of their kind (the signed ones with a verdict)
+	for _, p := range []string{"siacoin-as-siafund", "siafund-as-siacoin", "attestation-as-v2filecontract", "filecontract-as-v2filecontract", "v2filecontract-as-attestation"} {
+		if st.sepPairs[p] == 0 {
+			c.Infra("vacuity: no %s reinterpretation checked", p)
+		}
+	}
+	for _, d := range []string{"shim", "vte", "v2txn", "supp", "supp-used", "supp-form"} {
+		if st.reDoors[d] == 0 {
+			c.Infra("vacuity: no reinterpreted element got a verdict through door %s", d)
+		}
+	}
+	if st.preimageOK == 0 {
+		c.Infra("the harness's transcription of the leaf pre-images never agreed with the real element hash")
+	}
 	for _, d := range need {
 		v := st.verdicts[d]
 		if v == nil || v[0] == 0 || v[1] == 0 {
 			c.Infra("vacuity: door %s did not give both verdicts (%v)", d, v)
 		}
 	}
-	for _, m := range []string{"none", "flip", "field", "id", "idof", "idx", "alias", "proofof", "both", "pjunk", "pself", "pdrop", "pext", "pmax", "stale", "prev", "oldver", "newver", "cur", "at", "last", "first", "inplace", "ephemeral-claim"} {
+	for _, m := range []string{"none", "flip", "field", "id", "idof", "idx", "alias", "proofof", "both", "pjunk", "pself", "pdrop", "pext", "pmax", "stale", "prev", "oldver", "newver", "cur", "at", "last", "first", "inplace", "ephemeral-claim", "reinterpret"} {
 		if st.muts[m] == 0 {
 			c.Infra("vacuity: mutation class %s never applied", m)
 		}
